@@ -255,7 +255,9 @@ func corpus() []Case {
 	cs = append(cs, Case{Fn: "exp", Count: 19, Limit: -1, Base: 1, Max: 1_000_000, Mult: 10, Rnd: 0, K: 0},
 		Case{Fn: "exp", Count: 18, Limit: -1, Base: 1, Max: 1_000_000, Mult: 10, Rnd: 1, K: 1<<53 - 1},
 		Case{Fn: "exp", Count: 1 << 40, Limit: -1, Base: 1000, Max: 1_000_000, Mult: 1, Rnd: 1, K: 0},
-		Case{Fn: "exp", Count: 1<<62 + 1, Limit: 12, Base: 1000, Max: 1_000_000, Mult: 1.5, Rnd: 1, K: 0})
+		Case{Fn: "exp", Count: 1<<62 + 1, Limit: 12, Base: 1000, Max: 1_000_000, Mult: 1.5, Rnd: 1, K: 0},
+		// math.Pow loses 1.2e-7 here (x close to 1, huge y): must not be blamed on the back-off
+		Case{Fn: "exp", Count: 1<<56 + 1, Limit: -1, Base: 2, Max: days30, Mult: 1.0000000000000002, Rnd: 0.9826353675972973, K: 0})
 	return cs
 }
 
@@ -284,9 +286,9 @@ func main() {
 	}
 	n := f.N
 	if n == 0 {
-		n = 4000
+		n = 10000
 		if f.Tier == "thorough" {
-			n = 100000
+			n = 60000
 		}
 	}
 	for i := 0; i < n; i++ {
